@@ -114,6 +114,10 @@ type VerifSim struct {
 	// MetaDelayMs delays every metadata answer (client-close scenarios)
 	MetaDelayMs int
 	groups      map[string]*simGroup
+	// GroupMulti: several real members share the group (sim_groupmulti.go)
+	GroupMulti bool
+	Multi      VerifSimMulti
+	mgroups    map[string]*simMGroup
 	groupReqs   []VerifSimGroupReq
 	groupSeq    int
 	// Other handles request types the cluster does not know (group/offset/fetch protocols are added by other harnesses)
@@ -163,6 +167,9 @@ func (s *VerifSim) Addrs() []string {
 func (s *VerifSim) Close() {
 	s.mu.Lock()
 	s.closed = true
+	for _, gr := range s.mgroups {
+		gr.cond.Broadcast()
+	}
 	var conns []net.Conn
 	for _, b := range s.brokers {
 		b.ln.Close()
@@ -265,6 +272,12 @@ func (b *simBroker) serve(c net.Conn) {
 		case *OffsetRequest:
 			res = b.sim.listOffsets(b.id, body)
 		default:
+			if b.sim.GroupMulti {
+				if gres, gclose, ok := b.sim.handleGroupMulti(req.clientID, req.body); ok {
+					res, closeAfter = gres, gclose
+					break
+				}
+			}
 			if gres, gclose, ok := b.sim.handleGroup(b.id, req.body); ok {
 				res, closeAfter = gres, gclose
 			} else if b.sim.Other != nil {
